@@ -1,5 +1,7 @@
 import MidnightZK.Model.Common
 import MidnightZK.Model.C19.Parse
+import MidnightZK.Model.C19.Circuit
+import MidnightZK.Model.C19.Base64
 /-! Line-protocol handler of property C19. -/
 namespace MidnightZK.C19.Driver
 open MidnightZK MidnightZK.C19
@@ -52,6 +54,40 @@ def answer (line : String) : String :=
       | some false => "nondet"
       | none => "unknown"
     | _ => "bad-op"
+  | "parse" :: ts =>
+    match parseDfa ts with
+    | some (A, ["|", h]) =>
+      match parseHexBytes h with
+      | some bytes =>
+        match parseModel A bytes with
+        | some ms => s!"ok {fmtNatList ms}"
+        | none => "reject"
+      | none => "bad-op"
+    | _ => "bad-op"
+  | "parsewith" :: ts =>
+    match parseDfa ts with
+    | some (A, ["|", w]) =>
+      match parseWord w with
+      | some w => fmtBool (A.accepts (w.map (·.1)) (w.map (·.2)))
+      | none => "bad-op"
+    | _ => "bad-op"
+  | ["b64", alph, mode, h] =>
+    match parseHexBytes h with
+    | some input =>
+      let url := alph == "url"
+      if alph != "url" && alph != "std" then "bad-op" else
+      let input' := if url then input.map B64.urlToStd else input
+      let fmt (r : Option (List Nat)) : String :=
+        match r with
+        | some out => s!"ok {hexOfBytes out}"
+        | none => "unsat"
+      if mode == "pad" then
+        if !B64.lengthOk true input then "panic" else fmt (B64.decode true input')
+      else if mode == "nopad" then fmt (B64.decode false input')
+      else if mode == "var" then
+        if input.length % 4 != 0 || input.length > 64 then "panic" else fmt (B64.decodeVar 64 input')
+      else "bad-op"
+    | none => "bad-op"
   | "bisim" :: ts =>
     match parseDfa ts with
     | some (A, "|" :: ts) =>
